@@ -337,11 +337,18 @@ def _export_roundtrip(b, pt, sc, d):
              ("chord_of_voice_2_across_the_staves", lambda: G.build_part("P1", 2, notes=[("n0", 0, 4, "E", None, 5, 1, 1), ("n1", 4, 4, "D", None, 5, 1, 1), ("c0", 0, 8, "E", None, 4, 2, 1), ("c1", 0, 8, "B", None, 3, 2, 2),
                                                                                          ("b0", 0, 8, "C", None, 2, 3, 2)],
                                                                          clefs=[(0, 1, "G", 2), (0, 2, "F", 4)], key=(0, "major"), measures=[(0, 8)])),
+             # a general pause that nobody wrote down: the middle bar holds neither a note nor a rest
+             ("a_bar_in_which_nothing_is_played", lambda: G.build_part("P1", 4, notes=[("n0", 0, 8, "C", None, 4, 1, 1), ("n1", 8, 8, "E", None, 4, 1, 1), ("n2", 32, 4, "G", None, 4, 1, 1), ("n3", 36, 12, "C", None, 5, 1, 1)],
+                                                                       clefs=[(0, 1, "G", 2)], key=(0, "major"), measures=[(0, 16), (16, 32), (32, 48)])),
              ("a_single_staff_whose_only_voice_is_voice_2", lambda: G.build_part("P1", 2, notes=[("n0", 0, 4, "E", None, 4, 2, 1), ("n1", 4, 4, "D", None, 4, 2, 1)],
                                                                                  clefs=[(0, 1, "G", 2)], key=(0, "major"), measures=[(0, 8)]))]
     for name, mk in parts:
         for ext, save in (("mei", pt.save_mei), ("krn", __import__("partitura.io.exportkern", fromlist=["save_kern"]).save_kern)):
             case = {"part": name, "export": ext}
+            if name == "a_bar_in_which_nothing_is_played" and ext == "mei":
+                # the MEI writer does not accept a measure without a note or rest (it raises): such a part is not among "the parts
+                # exportable by the writer" the statement quantifies over; the kern writer accepts it
+                continue
             part = mk()
             for n in part.iter_all(sc.GenericNote, include_subclasses=True):
                 if n.symbolic_duration is None:
